@@ -112,11 +112,11 @@ let stop_at_poll n _ j =
 type 's cfg = { c_pc : pc; c_st : 's; c_steps : nat; c_polls : nat }
 
 (** val step_ps :
-    ('a1 -> 'a1 * elim_out) -> ('a1 -> 'a1) -> ('a1 -> 'a1 * lbool option) ->
-    ('a1 -> 'a1) -> ('a1 -> 'a1 * outcome) -> ('a1 -> 'a1) -> ('a1 -> 'a1) ->
-    bool -> pc -> 'a1 -> pc * 'a1 **)
+    bool -> ('a1 -> 'a1 * elim_out) -> ('a1 -> 'a1) -> ('a1 -> 'a1 * lbool
+    option) -> ('a1 -> 'a1 * bool) -> ('a1 -> 'a1 * outcome) -> ('a1 -> 'a1)
+    -> ('a1 -> 'a1) -> bool -> pc -> 'a1 -> pc * 'a1 **)
 
-let step_ps elim_work elim_cleanup search_init prop rest cancel0 restart b p s =
+let step_ps pac elim_work elim_cleanup search_init prop rest cancel0 restart b p s =
   match p with
   | PElimHead -> if b then (PElimCleanup, s) else (PElimWork, s)
   | PElimWork ->
@@ -133,7 +133,9 @@ let step_ps elim_work elim_cleanup search_init prop rest cancel0 restart b p s =
      | Some r -> ((PAfterSearch r), s')
      | None -> (PSearchHead, s'))
   | PSearchHead -> if b then (PSearchBreak, s) else (PProp, s)
-  | PProp -> (PAfterProp, (prop s))
+  | PProp ->
+    let (s', c) = prop s in
+    if (&&) c (negb pac) then (PRest, s') else (PAfterProp, s')
   | PAfterProp -> if b then (PSearchBreak, s) else (PRest, s)
   | PRest ->
     let (s', o) = rest s in
@@ -148,32 +150,33 @@ let step_ps elim_work elim_cleanup search_init prop rest cancel0 restart b p s =
   | PDone r -> ((PDone r), s)
 
 (** val step :
-    ('a1 -> 'a1 * elim_out) -> ('a1 -> 'a1) -> ('a1 -> 'a1 * lbool option) ->
-    ('a1 -> 'a1) -> ('a1 -> 'a1 * outcome) -> ('a1 -> 'a1) -> ('a1 -> 'a1) ->
-    flagfn -> 'a1 cfg -> 'a1 cfg **)
+    bool -> ('a1 -> 'a1 * elim_out) -> ('a1 -> 'a1) -> ('a1 -> 'a1 * lbool
+    option) -> ('a1 -> 'a1 * bool) -> ('a1 -> 'a1 * outcome) -> ('a1 -> 'a1)
+    -> ('a1 -> 'a1) -> flagfn -> 'a1 cfg -> 'a1 cfg **)
 
-let step elim_work elim_cleanup search_init prop rest cancel0 restart f c =
+let step pac elim_work elim_cleanup search_init prop rest cancel0 restart f c =
   match c.c_pc with
   | PDone _ -> c
   | x ->
     let ps =
-      step_ps elim_work elim_cleanup search_init prop rest cancel0 restart
-        (f c.c_steps c.c_polls) x c.c_st
+      step_ps pac elim_work elim_cleanup search_init prop rest cancel0
+        restart (f c.c_steps c.c_polls) x c.c_st
     in
     { c_pc = (fst ps); c_st = (snd ps); c_steps = (S c.c_steps); c_polls =
     (if is_poll x then S c.c_polls else c.c_polls) }
 
 (** val run :
-    ('a1 -> 'a1 * elim_out) -> ('a1 -> 'a1) -> ('a1 -> 'a1 * lbool option) ->
-    ('a1 -> 'a1) -> ('a1 -> 'a1 * outcome) -> ('a1 -> 'a1) -> ('a1 -> 'a1) ->
-    nat -> flagfn -> 'a1 cfg -> 'a1 cfg **)
+    bool -> ('a1 -> 'a1 * elim_out) -> ('a1 -> 'a1) -> ('a1 -> 'a1 * lbool
+    option) -> ('a1 -> 'a1 * bool) -> ('a1 -> 'a1 * outcome) -> ('a1 -> 'a1)
+    -> ('a1 -> 'a1) -> nat -> flagfn -> 'a1 cfg -> 'a1 cfg **)
 
-let rec run elim_work elim_cleanup search_init prop rest cancel0 restart fuel f c =
+let rec run pac elim_work elim_cleanup search_init prop rest cancel0 restart fuel f c =
   match fuel with
   | O -> c
   | S n ->
-    run elim_work elim_cleanup search_init prop rest cancel0 restart n f
-      (step elim_work elim_cleanup search_init prop rest cancel0 restart f c)
+    run pac elim_work elim_cleanup search_init prop rest cancel0 restart n f
+      (step pac elim_work elim_cleanup search_init prop rest cancel0 restart
+        f c)
 
 (** val result : 'a1 cfg -> lbool option **)
 
@@ -214,6 +217,7 @@ let data_race atomic0 tr =
 type ev =
 | EvElim of elim_out
 | EvInit of lbool option
+| EvProp of bool
 | EvRest of outcome
 
 type script = ev list
@@ -242,16 +246,25 @@ let sc_rest s = match s with
              | EvRest o -> (r, o)
              | _ -> (s, (Ret LUndef)))
 
+(** val sc_prop : script -> script * bool **)
+
+let sc_prop s = match s with
+| [] -> (s, false)
+| e :: r -> (match e with
+             | EvProp c -> (r, c)
+             | _ -> (s, false))
+
 (** val sc_id : script -> script **)
 
 let sc_id s =
   s
 
-(** val run_script : bool -> nat -> flagfn -> script -> lbool option * nat **)
+(** val run_script :
+    bool -> bool -> nat -> flagfn -> script -> lbool option * nat **)
 
-let run_script do_simp fuel f s =
+let run_script pac do_simp fuel f s =
   let c =
-    run sc_elim sc_id sc_init sc_id sc_rest sc_id sc_id fuel f
+    run pac sc_elim sc_id sc_init sc_prop sc_rest sc_id sc_id fuel f
       (entry do_simp s)
   in
   ((result c), c.c_polls)
@@ -259,9 +272,14 @@ let run_script do_simp fuel f s =
 (** val atomic : bool **)
 
 let atomic =
-  true
+  false
 
 (** val lookahead_polls : bool **)
 
 let lookahead_polls =
   false
+
+(** val poll_after_conflict : bool **)
+
+let poll_after_conflict =
+  true
